@@ -235,7 +235,12 @@ def specialise_repo(repo) -> list:
             continue
         dflt = _defaults(fn)
         stored = {n.id for n in ast.walk(fn) if isinstance(n, ast.Name) and isinstance(n.ctx, (ast.Store, ast.Del))}
-        new = {p: dflt[p] for p in param_names(fn) if p not in sigs[q] and p in dflt and _is_const(dflt[p]) and p not in stored}
+        now = param_names(fn)
+        # a recorded name that is gone means parameters were renamed (or removed): an unrecorded name may then be the renamed one, not an
+        # added option - such functions are left as they are
+        if any(p not in now for p in sigs[q]):
+            continue
+        new = {p: dflt[p] for p in now if p not in sigs[q] and p in dflt and _is_const(dflt[p]) and p not in stored}
         if new:
             cands[q] = new
     if not cands:
